@@ -275,6 +275,19 @@ def exec (dst : Nat) (op : String) : M Unit := do
     match mkCond be diag (v3 Mm) (b.map v2) (S.map v3) (L.map v3) (ld.map v1) with
     | some c => setReg dst (.cond R Dy Dx c)
     | none => refuse "refuse-documented"
+  | "nncond" => do
+    let Dy ← lp nat; let Dx ← lp nat
+    let S ← lp (floats (Dy * Dy))
+    setReg dst (.cond 1 Dy Dx (mkNNCond be (v3 S)))
+  | "nn_set_control" => do
+    match (← getReg (← reg)) with
+    | .cond R Dy Dx nn =>
+      if h : R = 1 then
+        let Ru ← lp nat
+        let out ← lp (floats (Ru * (Dy * Dx + Dy)))
+        setReg dst (.cond Ru Dy Dx (nnSetControl (h ▸ nn) (v2 out)))
+      else refuse "refuse-documented"
+    | _ => refuse "type-error"
   | "condid" => do
     let diag ← lp bool
     let R ← lp nat; let D ← lp nat
